@@ -251,6 +251,8 @@ def fpval(x: float):
 
 def to_term(v, kind):
     """z3 term of the requested kind for a scalar value (Python bool->int coercions included)."""
+    if isinstance(v, z3.ExprRef):
+        return v
     if isinstance(v, Sym):
         if v.kind == kind:
             return v.t
@@ -300,3 +302,22 @@ def is_concrete(v):
     if isinstance(v, SeqV):
         return v.items is not None and all(is_concrete(i) for i in v.items)
     return True
+
+
+# ------------------------------------------------------------------ float <-> bytes abstraction
+# struct 'f'/'d' conversions are modelled by uninterpreted functions; their IEEE-754 meaning enters proofs only
+# through separately proved lemmas (contracts/lemmas_float.py).  This keeps array/quantifier VCs free of bit-blasting.
+_I = z3.IntSort()
+UF_F32 = z3.Function("f32_of_bytes", _I, _I, _I, _I, F64)
+UF_F64 = z3.Function("f64_of_bytes", _I, _I, _I, _I, _I, _I, _I, _I, F64)
+UF_F32B = [z3.Function(f"f32_byte{k}", F64, _I) for k in range(4)]
+UF_F64B = [z3.Function(f"f64_byte{k}", F64, _I) for k in range(8)]
+
+
+def background_axioms():
+    """Range facts of the byte-producing functions (always sound: a byte is 0..255)."""
+    v = z3.FP("bg!v", F64)
+    out = []
+    for f in UF_F32B + UF_F64B:
+        out.append(z3.ForAll([v], z3.And(f(v) >= 0, f(v) <= 255), patterns=[f(v)]))
+    return out
